@@ -4,7 +4,7 @@
 From Coq Require Import List ZArith Bool.
 From Coq.Strings Require Import Byte.
 Import ListNotations.
-From SV Require Import Text G_codes C05_Model C13_Model C13_Rx C13_Lemmas C13_Once C13_Depth.
+From SV Require Import Text G_codes C05_Model C13_Model C13_Rx C13_Lemmas C13_Once C13_Depth C13_RxLemmas.
 Local Open Scope Z_scope.
 
 (* P0 span_contains_match + frames, for every match reported by matchall: forward matches come first, then backward ones;
@@ -290,3 +290,118 @@ Example C13_witness_gap_strings :
   matchall (bs "CA-.TA.T-G"%bs) (bs "ATG"%bs) (RStr (bs "both"%bs)) 0 (Some [x2d; x2e])
   = Some [mk_bm 5 10 (bs "A.T-G"%bs) (Some 0); mk_bm 0 5 (bs "A.-TG"%bs) (Some (-1))].
 Proof. exact (conj eq_refl (conj eq_refl (conj eq_refl (conj eq_refl (conj eq_refl eq_refl))))). Qed.
+
+(* ================================================================== round 7: the pattern language (model/C13_Rx.v) *)
+(* the gap-tolerant rewriting of cane.py:217-222, which works on the pattern TEXT character by character, is the tree-level
+   rewriting "put the class of the gap characters between two neighbours of a concatenation whose texts end / begin with a letter
+   or '.'", for every pattern tree whose classes have no two neighbouring letters (those are torn apart: PENDING FIX class_gap) *)
+Theorem C13_rx_rewrite_text_is_tree : forall g r, cls_gap_ok r = true -> rw g (show r) = show (gapify g r).
+Proof. exact rw_show_gapify. Qed.
+Print Assumptions C13_rx_rewrite_text_is_tree.
+
+(* the backtracking matcher only reports prefixes that are in the language of the pattern *)
+Theorem C13_rx_matcher_sound : forall r s n, m_rx r s = Some n -> (n <= length s)%nat /\ lang r (firstn n s).
+Proof. exact m_rx_sound. Qed.
+Print Assumptions C13_rx_matcher_sound.
+
+(* meaning of the rewritten pattern: whatever it matches is, with the gap characters removed, matched by the original pattern
+   (patterns whose characters are residues: no '.', no negated class, no gap character), and whatever the original pattern
+   matches is still matched *)
+Theorem C13_rx_gap_meaning : forall g r,
+  (gapfree g r = true -> forall t, lang (gapify g r) t -> lang r (degap g t)) /\
+  (forall t, lang r t -> lang (gapify g r) t).
+Proof. exact (fun g r => conj (gapify_degap g r) (gapify_keeps g r)). Qed.
+Print Assumptions C13_rx_gap_meaning.
+
+(* every match reported for a pattern tree (both strands): span inside the sequence at a column >= start, group = text of the
+   span (backward: mirrored through BioMatch.span, reversed complement of the forward span), group in the language of the effective
+   pattern, frame requested and equal to the residue count modulo 3 *)
+Theorem C13_rx_matchall_sound : forall r s rfn start gap, 0 <= start ->
+  exists F B, matchall_m (m_rx (eff_rx gap r)) s rfn start gap = F ++ B /\
+    (forall x, In x F -> fwd_spec_m (lang (eff_rx gap r)) s rfn start gap x) /\
+    (forall x, In x B -> exists l, rfn = Some l /\ bwd_spec_m (lang (eff_rx gap r)) s l start gap x).
+Proof. exact rx_matchall_sound. Qed.
+Print Assumptions C13_rx_matchall_sound.
+
+(* spans ascend and are disjoint on each strand; match() is the head of matchall(), for any matcher *)
+Theorem C13_rx_order : forall r s rfn start gap,
+  chain 0 (map span_of (fwd_list_m (m_rx r) s start gap rfn)) /\
+  chain 0 (map (rc_span_of (length s)) (bwd_list_m (m_rx r) s start gap rfn)).
+Proof. exact rx_matchall_order. Qed.
+Print Assumptions C13_rx_order.
+
+Theorem C13_rx_match_is_head : forall m s rfn start gap,
+  match_first_m m s rfn start gap = hd_error (matchall_m m s rfn start gap).
+Proof. exact match_first_m_hd. Qed.
+Print Assumptions C13_rx_match_is_head.
+
+(* the word-list model of the earlier rounds is the instance "matcher = ordered alternation of the compiled words" *)
+Theorem C13_words_are_an_instance : forall s sub rf start gap,
+  matchall s sub rf start gap =
+  option_map (fun rfn => matchall_m (m_alts (compile gap (expand_sub sub))) s rfn start gap) (norm_rf rf).
+Proof. exact matchall_is_m. Qed.
+Print Assumptions C13_words_are_an_instance.
+
+(* BioMatch.span: mirroring for negative frames is an involution, keeps spans inside the sequence and their length *)
+Theorem C13_span_mirror : forall rf L b e,
+  span_mirror rf L (span_mirror rf L (b, e)) = (b, e) /\
+  span_mirror rf L (b, e) = match rf with Some f => if f <? 0 then (L - e, L - b) else (b, e) | None => (b, e) end /\
+  (0 <= b <= e -> e <= L ->
+   0 <= fst (span_mirror rf L (b, e)) <= snd (span_mirror rf L (b, e)) /\ snd (span_mirror rf L (b, e)) <= L /\
+   snd (span_mirror rf L (b, e)) - fst (span_mirror rf L (b, e)) = e - b).
+Proof.
+  exact (fun rf L b e => conj (span_mirror_involutive rf L (b, e)) (conj (span_mirror_cases rf L b e) (span_mirror_bounds rf L b e))).
+Qed.
+Print Assumptions C13_span_mirror.
+
+(* BioMatchList.groupby('rf'): the keys are the distinct frames in order of first occurrence, every group is the order-preserving
+   sub-list of the matches with that frame, no group is empty, every match is in the group of its frame *)
+Theorem C13_groupby_partition : forall l,
+  map fst (groupby_rf l) = dedup oz_eqb (map bm_rf l) /\ NoDup (map fst (groupby_rf l)) /\
+  (forall k vs, In (k, vs) (groupby_rf l) -> vs = filter (fun v => oz_eqb k (bm_rf v)) l /\ vs <> []) /\
+  (forall v, In v l -> exists vs, In (bm_rf v, vs) (groupby_rf l) /\ In v vs).
+Proof. exact groupby_rf_partition. Qed.
+Print Assumptions C13_groupby_partition.
+
+(* the rf argument as a total decision table (None, int, bool, str, collection of ints, anything that cannot be iterated) with
+   the error class of each rejected value, and which strands are searched *)
+Theorem C13_rf_decision_table : forall a,
+  match a with
+  | RfArg RNone => rf_decide a = inr None
+  | RfArg (RInt z) => rf_decide a = inr (Some [z])
+  | RfArg (RList l) => rf_decide a = inr (Some l)
+  | RfArg (RStr t) =>
+      (t = bs "fwd"%bs /\ rf_decide a = inr (Some [0; 1; 2])) \/
+      (t = bs "bwd"%bs /\ rf_decide a = inr (Some [-1; -2; -3])) \/
+      (t = bs "both"%bs /\ rf_decide a = inr (Some [0; 1; 2; -1; -2; -3])) \/
+      (t <> bs "fwd"%bs /\ t <> bs "bwd"%bs /\ t <> bs "both"%bs /\ rf_decide a = inl (bs "AssertionError"%bs))
+  | RfBool b => rf_decide a = rf_decide (RfArg (RInt (if b then 1 else 0)))
+  | RfNonIter => rf_decide a = inl (bs "TypeError"%bs)
+  end.
+Proof. exact rf_decide_table. Qed.
+Print Assumptions C13_rf_decision_table.
+
+Theorem C13_rf_strands : forall l,
+  (has_fwd l = true <-> exists z, In z l /\ 0 <= z <= 2) /\ (has_bwd l = true <-> exists z, In z l /\ -3 <= z <= -1).
+Proof. exact (fun l => conj (has_fwd_iff l) (has_bwd_iff l)). Qed.
+Print Assumptions C13_rf_strands.
+
+(* non-vacuity for the pattern language: A[TU]G without gap tolerance (the C13-16 witness: the text is longer than the sequence),
+   AT+G with gap tolerance on both strands, the rewriting on texts, a torn class, groupby *)
+Example C13_witness_rx :
+  let r := XCat (XChr x41) (XCat (XCls false (bs "TU"%bs)) (XChr x47)) in
+  wf_rx [bs "ATG"%bs] (bs "A[TU]G"%bs) r (RfArg (RStr (bs "both"%bs))) 0 None = true /\
+  matchall_m (m_rx (eff_rx None r)) (bs "ATG"%bs) (Some [0; 1; 2; -1; -2; -3]) 0 None = [mk_bm 0 3 (bs "ATG"%bs) (Some 0)] /\
+  cls_gap_ok r = false /\ rw (bs "-"%bs) (show r) = bs "A[T[-]*U]G"%bs.
+Proof. exact (conj eq_refl (conj eq_refl (conj eq_refl eq_refl))). Qed.
+
+Example C13_witness_rx_gap :
+  let r := XCat (XChr x41) (XCat (XPlus (XChr x54)) (XChr x47)) in
+  wf_rx [bs "CA-TTGCAT"%bs] (bs "AT+G"%bs) r (RfArg (RStr (bs "both"%bs))) 0 (Some [x2d]) = true /\
+  gapfree [x2d] r = true /\ cls_gap_ok r = true /\
+  show (gapify [x2d] r) = bs "A[-]*T+G"%bs /\ rw [x2d] (bs "AT+G"%bs) = bs "A[-]*T+G"%bs /\
+  matchall_m (m_rx (eff_rx (Some [x2d]) r)) (bs "CA-TTGCAT"%bs) (Some [0; 1; 2; -1; -2; -3]) 0 (Some [x2d])
+  = [mk_bm 1 6 (bs "A-TTG"%bs) (Some 1); mk_bm 6 9 (bs "ATG"%bs) (Some (-1)); mk_bm 0 4 (bs "A-TG"%bs) (Some (-3))] /\
+  groupby_rf [mk_bm 1 6 (bs "A-TTG"%bs) (Some 1); mk_bm 6 9 (bs "ATG"%bs) (Some (-1)); mk_bm 7 9 (bs "TG"%bs) (Some 1)]
+  = [(Some 1, [mk_bm 1 6 (bs "A-TTG"%bs) (Some 1); mk_bm 7 9 (bs "TG"%bs) (Some 1)]); (Some (-1), [mk_bm 6 9 (bs "ATG"%bs) (Some (-1))])].
+Proof. exact (conj eq_refl (conj eq_refl (conj eq_refl (conj eq_refl (conj eq_refl (conj eq_refl eq_refl)))))). Qed.
